@@ -691,3 +691,20 @@ Proof.
   - intros. apply define_number; auto.
   - intros. apply define_negative; auto.
 Qed.
+
+(* the value of `NAME=-<literal>` is the UNSIZED negation of the literal, whatever size the digits would give;
+   a positive literal keeps its digit-count size *)
+Theorem define_negated_unsized : forall name body v sz, ~ In 61 name -> ~ In 61 body ->
+  excerpt_as_bigint cli_radix_prefix2 cli_radix_prefix1 cli_empty_literal_is_error body = COk (Some (v, sz)) ->
+  parse_define (name ++ 61 :: 45 :: body) = COk (name, DInt (- Z.of_N v) None).
+Proof.
+  intros name body v sz Hn Hb E. unfold parse_define. rewrite define_negative; auto. rewrite E. reflexivity.
+Qed.
+
+Theorem define_positive_sized : forall name body v sz, ~ In 61 name -> ~ In 61 body ->
+  text_eqb body t_true = false -> text_eqb body t_false = false -> (forall r, body <> 45 :: r) ->
+  excerpt_as_bigint cli_radix_prefix2 cli_radix_prefix1 cli_empty_literal_is_error body = COk (Some (v, sz)) ->
+  parse_define (name ++ 61 :: body) = COk (name, DInt (Z.of_N v) sz).
+Proof.
+  intros name body v sz Hn Hb Ht Hf Hneg E. unfold parse_define. rewrite define_number; auto. rewrite E. reflexivity.
+Qed.
